@@ -143,10 +143,11 @@ Example C11_fragment_with_groups_satisfiable :
 Proof. exact examples_S. Qed.
 Print Assumptions C11_fragment_with_groups_satisfiable.
 
-Theorem C11_suffix_factoring_under_fold_refuted :
-  (simp_text t_suffix_fold = "(?i:a?aA)") /\ (differ t_suffix_fold (simp_ast t_suffix_fold) "aaa") /\ (avoids_defectsS t_suffix_fold = false).
-Proof. exact suffix_factoring_under_fold_refuted. Qed.
-Print Assumptions C11_suffix_factoring_under_fold_refuted.
+(* repaired: `x|hx` is no longer factored (only `hx|x` is); the routine before the fixes still differs on "aaa" *)
+Theorem C11_suffix_factoring_under_fold_fixed :
+  simp_score t_suffix_fold = 0 /\ differ t_suffix_fold (simp_ast_prefix t_suffix_fold) "aaa".
+Proof. exact suffix_factoring_under_fold_fixed. Qed.
+Print Assumptions C11_suffix_factoring_under_fold_fixed.
 
 (* the earlier, narrower form (no capture group, no flag group, no factoring), state-free elaboration *)
 Theorem C11_simplify_sound_plain_partial : forall e, in_fragment e = true -> avoids_defects e = true ->
